@@ -797,16 +797,30 @@ def run_c17(rep, tier, seed):
               ("OneOf", ps.OneOf(ps.Spaces(0, "g"), ps.HexInt()))]
     sample = bodies if tier != "quick" else rnd.sample(bodies, 700)
     for (tname, comb) in terms:
+        # digit runs around the interpreter's limit for int <-> str conversion (4300 digits): refused or decoded, but a decoded
+        # problem must be writable again
+        long_digits = ["9" * 4299, "9" * 4300, "9" * 4301, "1" + "0" * 5000] if tname in ("DecInt", "Tupl", "Seq", "Grid") else []
         for (h, w) in [(1, 1), (1, 3), (2, 2), (3, 2), (0, 0), (0, 2), (3, 0), (0, 2 ** 63), (0, 10 ** 30)]:
-            for b in (sample if w < 2 ** 31 else ["", "0", "g", "1.", "00"]):
+            for b in ((sample + (long_digits if (h, w) == (1, 1) else [])) if w < 2 ** 31 else ["", "0", "g", "1.", "00"]):
                 rep.evaluations += 1
                 try:
                     r = ps.deserialize_problem(comb, b, height=h, width=w)
                     outcomes["None" if r is None else "problem"] = outcomes.get("None" if r is None else "problem", 0) + 1
                 except ALLOWED:
                     outcomes["ValueError"] = outcomes.get("ValueError", 0) + 1
+                    continue
                 except Exception as e:
-                    viol("combinator:%s:exception:%s:%s" % (tname, type(e).__name__, _shape_cls(h, w)), "deserialize_problem(%s, %r, %dx%d) raised %s: %s" % (tname, b, h, w, type(e).__name__, str(e)[:100]), dict(term=tname, text=b, height=h, width=w))
+                    viol("combinator:%s:exception:%s:%s" % (tname, type(e).__name__, _shape_cls(h, w)), "deserialize_problem(%s, %r, %dx%d) raised %s: %s" % (tname, b[:60], h, w, type(e).__name__, str(e)[:100]), dict(term=tname, text=b, height=h, width=w))
+                    continue
+                if r is not None:
+                    # "only yields re-encodable problems": what was decoded can be written, and reads back as itself
+                    try:
+                        t2 = ps.serialize_problem(comb, r, height=h, width=w)
+                        r2 = ps.deserialize_problem(comb, t2, height=h, width=w)
+                        if r2 != r:
+                            viol("combinator:%s:decoded-problem-not-stable" % tname, "deserialize_problem(%s, %r, %dx%d) gave a problem that re-encodes to %r and then decodes to something else" % (tname, b[:60], h, w, t2[:60]), dict(term=tname, text=b, height=h, width=w))
+                    except Exception as e:
+                        viol("combinator:%s:decoded-problem-not-encodable:%s" % (tname, type(e).__name__), "deserialize_problem(%s, %r..., %dx%d) returned a problem that serialize_problem refuses: %s: %s" % (tname, b[:40], h, w, type(e).__name__, str(e)[:100]), dict(term=tname, text=b, height=h, width=w))
     rep.coverage["outcomes"] = outcomes
     rep.distinct.update(("c17", i) for i in range(rep.evaluations))
     rep.samples.append(dict(url="https://puzz.link/p?nurikabe/2/2/" + bodies[37], note="exhaustive short bodies over the alphabet %r" % ALPHABET))
